@@ -87,7 +87,7 @@ def main():
                 "thorough_cmd": "./check.py %s --tier thorough" % p,
                 "evidence_file": "evidence/%s.json" % p,
                 "replay_cmd_template": "./check.py %s --replay {path}" % p,
-                "engine": "kani-cbmc" + ("+smt" if p == "C17" else ""),
+                "engine": "kani-cbmc" + ("+smt" if p in ("C17", "C13") else ""),
                 "level_claimed": {"category": "model_checking", "text": c["text"], "design_ref": "DESIGN.md section " + c["design"]},
                 "level_note": c["note"],
                 "technique": c["technique"],
